@@ -13,7 +13,7 @@ inductive Ty
   | zahl | komma | byte | wahr | buchstabe | text | variable | nichts
   | liste (e : Ty)
   | kombi (name : String)
-  deriving Repr, BEq, Inhabited
+  deriving Repr, DecidableEq, Inhabited
 
 partial def Ty.toStr : Ty → String
   | .zahl => "Z" | .komma => "K" | .byte => "B" | .wahr => "W" | .buchstabe => "C" | .text => "T"
